@@ -632,3 +632,57 @@ def rule_old_length_before_overwrite(ctx):
                 ctx.holds("OLDLEN", key, f.where(node_line(nd)), "the current length of %s is measured before the new string is copied over it" % fld[1], nontrivial=True)
     ctx.floor("OLDLEN", 2, n, "(current-length measurements that decide new_h_sz)")
     return n
+
+
+# ---------------------------------------------------------------------------------------------------------------------
+def rule_redefinition_replaces(ctx):
+    """REDEFINE (C07): VSfdefine keeps user field definitions in a table that every later lookup scans from the front.  A second
+    definition of a name must therefore *replace* the stored one whenever it differs from it in any attribute — type or order;
+    appended behind it, the new definition is never found and the caller's records are packed with the old layout.  The guard
+    of `replacesym = 1` is evaluated for 'only the type differs' and 'only the order differs': it must hold in both."""
+    from .rules_coders import _eval_guard
+    prog = ctx.prog
+    f = prog.func("VSfdefine")
+    if f is None or not f.raw.get("ast"):
+        ctx.unrecognised("REDEFINE", "REDEFINE:VSfdefine", "-", "VSfdefine not found")
+        return 0
+    guards = []
+
+    def vis(nd, st):
+        if nd[0] == "if":
+            for e, _n in seq_of(nd[2]):
+                for x in walk(e, True):
+                    if x[0] == "asg" and x[1] == "=" and kind(strip(x[2])) == "var" and strip(x[2])[1].startswith("replace") and is_int(x[3], 1):
+                        if not any(g is nd for g in guards) and all(s_[0] != "if" or s_ is nd or "strcmp" in render(s_[1]) for s_ in st):
+                            guards.append(nd)
+        return True
+
+    ast_walk(f.raw["ast"], vis)
+    guards = [g for g in guards if "strcmp" not in render(g[1])]
+    n = 0
+    for g in guards:
+        n += 1
+        key = "REDEFINE:VSfdefine#%d" % n
+        line = node_line(g)
+        res = []
+        for what, tv, ov in (("only the type differs", (1, 2), (5, 5)), ("only the order differs", (1, 1), (5, 6))):
+            def val(leaf, tv=tv, ov=ov):
+                if kind(leaf) == "var":
+                    if "type" in leaf[1]:
+                        return tv[0]
+                    if "order" in leaf[1]:
+                        return ov[0]
+                if kind(leaf) == "mem":
+                    if leaf[2] == "type":
+                        return tv[1]
+                    if leaf[2] == "order":
+                        return ov[1]
+                return None
+            res.append((what, _eval_guard(g[1], val)))
+        bad = [w for w, v in res if v != 1]
+        if bad:
+            ctx.violated("REDEFINE", key, f.where(line), "the stored definition is not replaced when %s (`%s`): the new definition is appended behind it and never found" % (" or when ".join(bad), render(g[1])[:80]))
+        else:
+            ctx.holds("REDEFINE", key, f.where(line), "a definition of the same name is replaced when the type or the order differs", nontrivial=True)
+    ctx.floor("REDEFINE", 1, n, "(replacement tests in VSfdefine)")
+    return n
